@@ -156,13 +156,13 @@ class TranslatorC(Translator):
             elif expr.op.startswith("zeroExt_"):
                 arg = expr.args[0]
                 if expr.size == arg.size:
-                    return arg
+                    return self.from_expr(arg)
                 return self.from_expr(ExprCompose(arg, ExprInt(0, expr.size - arg.size)))
 
             elif expr.op.startswith("signExt_"):
                 arg = expr.args[0]
                 if expr.size == arg.size:
-                    return arg
+                    return self.from_expr(arg)
                 add_size = expr.size - arg.size
                 new_expr = ExprCompose(
                     arg,
